@@ -66,6 +66,7 @@ func runChildren(child, dir string, cases []cfgkit.Case, smoke bool, res *vio.Re
 		// read what the child managed to report
 		inflight := -1
 		done := 0
+		last := -1
 		if f, ferr := os.Open(resFile); ferr == nil {
 			sc := bufio.NewScanner(f)
 			sc.Buffer(make([]byte, 1<<20), 1<<26)
@@ -84,6 +85,7 @@ func runChildren(child, dir string, cases []cfgkit.Case, smoke bool, res *vio.Re
 				}
 				rr := r
 				out[r.ID] = &outcome{res: &rr}
+				last = r.ID
 				if r.ID == inflight {
 					inflight = -1
 				}
@@ -102,7 +104,23 @@ func runChildren(child, dir string, cases []cfgkit.Case, smoke bool, res *vio.Re
 			return out
 		}
 		if inflight < 0 {
-			res.Break("child failed outside a case: %v: %s", err, tail(stderr.String(), 2000))
+			se := stderr.String()
+			if last >= 0 && (strings.Contains(se, "panic:") || strings.Contains(se, "fatal error:")) && strings.Contains(se, "shadowsocks-go/") {
+				// a goroutine of the services of the case that had just reported took the process down a moment later:
+				// the crash belongs to that case's configuration
+				out[last] = &outcome{crashed: true, stderr: se}
+				start += done
+				continue
+			}
+			if msg, site, isPanic := panicSite(se); isPanic && strings.Contains(se, "shadowsocks-go/") {
+				// no case had begun: the fixtures (services built from configurations the manager accepted, with omitted
+				// policy fields) were running and being probed - an accepted configuration crashed once traffic flowed
+				res.Violation(vio.Finding{Key: "config.accepted/panic-in-" + sanitize(site), Behaviour: -1,
+					Text:     fmt.Sprintf("a configuration of the harness fixtures was accepted and the process died once traffic flowed: %s (in %s)", msg, site),
+					Observed: tail(se, 1800), Replay: map[string]any{"fixture": true}})
+				return out
+			}
+			res.Break("child failed outside a case (done %d, last %d): %v: %s", done, last, err, tail(se, 1500))
 			return out
 		}
 		out[inflight] = &outcome{crashed: true, stderr: stderr.String()}
@@ -535,7 +553,8 @@ func TestCases(t *testing.T) {
 	for i := range cases {
 		o := outs[cases[i].ID]
 		if o == nil {
-			if len(res.Broken) == 0 {
+			if len(res.Broken) == 0 && len(res.Violations) == 0 {
+				// (after a crash of the fixtures themselves - reported as a violation - the remaining cases never ran)
 				res.Break("case %d has no result", cases[i].ID)
 			}
 			continue
